@@ -912,14 +912,14 @@ func (c *Ctx) c07Batch(b BK) {
 							}
 						}
 					case "Len":
-						if !b.Sharded && ev.Kind == pw.EvAssign && ev.Value != nil && ev.Value.Kind == pw.KArith {
+						if !b.Sharded && (ev.Kind == pw.EvAssign || ev.Kind == pw.EvFieldWrite) && ev.Value != nil && ev.Value.Kind == pw.KArith {
 							effects++
 						}
 						if b.Sharded && ev.Kind == pw.EvMapLen && isShardData(ev) {
 							effects++
 						}
 					}
-					if ev.Kind == pw.EvAssign && ev.Value != nil && ev.Value.Kind == pw.KArith && ev.Value.Op == token.ADD {
+					if isIncrement(ev) {
 						counts++
 					}
 				}
@@ -962,7 +962,7 @@ func (c *Ctx) c07Batch(b BK) {
 			}
 			if s.op == "Len" && len(p.Ret) == 1 {
 				rv := p.Ret[0]
-				okRet := rv.Kind == pw.KHavoc || rv.Kind == pw.KArith || rv.Kind == pw.KConst
+				okRet := rv.Kind == pw.KHavoc || rv.Kind == pw.KArith || rv.Kind == pw.KConst || rv.Kind == pw.KZero
 				if rv.Kind == pw.KConst {
 					if cst, ok := poly.Of(rv, nil).IsConst(); !ok || cst.Sign() != 0 {
 						okRet = false
